@@ -38,16 +38,38 @@ func overlapPairs(sp []span) int {
 	return n
 }
 
+// withLongKeys adds keys of 64-130 bytes (a family with a long shared path) to every pool
+// of a byte-string kind: lookups of long keys take their own paths in an implementation.
+func withLongKeys[K string | []byte](k *kinds.Kind[K]) *kinds.Kind[K] {
+	pool := k.Pool
+	k.Pool = func(r *rng.R, n int) []K {
+		ps := pool(r, n)
+		stem := make([]byte, 60+r.Intn(40))
+		for i := range stem {
+			stem[i] = byte('a' + r.Intn(3))
+		}
+		for i := 0; i < 16; i++ {
+			key := append(append([]byte{}, stem...), byte('A'+i), byte('a'+r.Intn(26)))
+			for j := 0; j < r.Intn(30); j++ {
+				key = append(key, byte('a'+r.Intn(4)))
+			}
+			ps = append(ps, K(key))
+		}
+		return ps
+	}
+	return k
+}
+
 func sharedMakers() []func(cfg *engine.Config, res *ev.Result, name string, seed uint64) engine.Shared {
 	mk := func(f func(cfg *engine.Config, res *ev.Result, name string, seed uint64) engine.Shared) func(*engine.Config, *ev.Result, string, uint64) engine.Shared {
 		return f
 	}
 	return []func(cfg *engine.Config, res *ev.Result, name string, seed uint64) engine.Shared{
 		mk(func(c *engine.Config, r *ev.Result, n string, s uint64) engine.Shared {
-			return engine.BuildShared(kinds.AlphaString(), c, r, n, s, 400, 200)
+			return engine.BuildShared(withLongKeys(kinds.AlphaString()), c, r, n, s, 400, 200)
 		}),
 		mk(func(c *engine.Config, r *ev.Result, n string, s uint64) engine.Shared {
-			return engine.BuildShared(kinds.AlphaBytes(), c, r, n, s, 400, 200)
+			return engine.BuildShared(withLongKeys(kinds.AlphaBytes()), c, r, n, s, 400, 200)
 		}),
 		mk(func(c *engine.Config, r *ev.Result, n string, s uint64) engine.Shared {
 			return engine.BuildShared(kinds.Uint32(), c, r, n, s, 400, 200)
